@@ -167,3 +167,10 @@ class _Sub:
 
 SUBCHECKS = {"loop": _Sub()}
 REPLAY = {"loop": lambda c: explore(c).fails}
+
+# keyword / dict calls bind the documented names (see mc/kw.py)
+from .. import kw as _kw  # noqa: E402
+
+_KW = _kw.KwSub("cascade")
+SUBCHECKS["keywords"] = _KW
+REPLAY["keywords"] = _KW.replay
